@@ -326,6 +326,9 @@ class Interp(object):
                     kwv = env['__kw__'].get(key, dflt) if key in env['__kw__'] else dflt
                     if kwv is not None:
                         env['__c__'][nm] = kwv
+                    if val.func.attr == 'pop' and key in env['__kw__']:
+                        # the key is removed from the dictionary: a later f(**kwargs) no longer forwards it
+                        env['__kw__'] = {k_: v_ for k_, v_ in env['__kw__'].items() if k_ != key}
                 elif isinstance(val, ast.Constant):
                     env['__c__'][nm] = val.value
                 # alias of self:  geom = obj
